@@ -38,7 +38,8 @@ META = {
   level='proof',
   text="Proof: FRU/PCE/MRU/Callout constructors against byte-exact specs incl. read footprint; getCallouts for ANY number of callouts by three "
        "loop invariants (walk, rendering, MRU-id string) sharded 16 ways over the FRU flags; SRC.toJSON for word counts 1..9, all SRC types, "
-       "flags, plugins on/off, with two sample registries (empty / populated).",
+       "flags, plugins on/off, with two sample registries (empty / populated); Registry.getErrorMessage on its own for a registry of ANY number "
+       "of arbitrary entries (the message is the first matching entry's, in registry order; entry type defaults to BD).",
   note="Registry content and callout-parser behaviour are environment (A3). Location code / PCE name lengths: location codes of 0,1,4,16,80 "
        "bytes in the Callout unit; arbitrary in getCallouts (opaque).",
   assumptions=[PLUGIN_A, "text fields of well-formed SRCs are ASCII"]),
@@ -164,8 +165,10 @@ META = {
   text="Proof: parse_dump_data for every byte string and every subset/order of the six recognised headers: regions are consecutive, cover "
        "[0,n) and are reported in ascending order, each decoded by the stand-alone decoder on exactly its slice; parse_dump_file auto-detection; "
        "a pre-BMC line contributes nothing under the BMC template.",
-  note="bytes.find is used through the quantifier-free part of its contract (an occurrence inside the data); 'first occurrence' is checked by "
-       "the bounded companion.",
+  note="bytes.find is used through its full (assumed) contract: the least offset of an occurrence, -1 iff there is none (quantified). With it "
+       "the statement's 'earliest recognised header' is proved on the bytes themselves: no header of any of the six names starts before the end "
+       "of the ILOG region, every trace region starts at a header, a name without a region occurs nowhere, and the first header of each name that "
+       "occurs starts a region.",
   assumptions=[]),
  'C18': dict(
   level='proof',
@@ -201,7 +204,7 @@ TRUSTED = ["assumed contracts of the OS boundary: os.walk, open/read/write/close
            "machine arithmetic: none - Python ints are mathematical and are encoded as z3 Int"]
 
 
-TECH = {'C01': 'contracts + z3 VCs on the real source: section consumption posts, dispatch post, parsePEL loop invariant over recursively defined section list; buildOutput by two loop invariants over an array-modelled map + lemmas (z3 induction, cvc5 strings) and exhaustive enumeration', 'C02': 'contracts + z3 VCs: one postcondition per displayed field against byte-exact spec functions; sharded over flag words / target counts', 'C03': 'contracts + z3 VCs: sub-structure posts with read footprint, getCallouts by three loop invariants, SRC.toJSON posts with sample registries', 'C04': 'contracts + z3 VCs with the parser module havocked (returns/None/null/raises); hex-dump preservation via the C13 contract', 'C05': 'contracts + z3 VCs in both assert modes (assert statements removed for -O): bounds posts, exceptional postconditions, parsePEL-any-input invariant', 'C06': 'AST-extracted rewrite rule + regex->DFA product/emptiness (position lemma for lines of any length) + call-site check + mode loop invariants for the framing', 'C07': "contracts + z3 VCs: decision procedure equals the statement's selection formula over all severities, flags, switches and group sets", 'C08': 'contracts + z3 VCs: getFileList and the three modes by per-file loop invariants over one shared selection predicate (directories of any size)', 'C09': 'contracts + z3 VCs: stdout/stderr/fs ghost traces; per-file loop invariants: undecodable files contribute nothing (directories of any size)', 'C10': 'contracts + z3 VCs: id normalisation, PLID string lemma for all 2^32 ids (base-16 lemmas), look-up loops by (quantified) invariants', 'C11': 'contracts + z3 VCs: frame conditions on the ghost fs trace; deletion loops by invariants; main dispatch over all option combinations', 'C12': 'contracts + z3 VCs: every I/O primitive forks into success/OSError (all fault sequences); remove only after write_ok and close_ok', 'C13': 'contracts + z3 VCs: hexdump loop invariant, per-line parse lemmas on concrete-shape strings for 3 templates, syntactic independence lemma; layout enumeration', 'C14': 'contracts + z3 VCs: wildcard match on symbolic patterns, first-match search (quantified invariant), entry loop invariant', 'C15': 'contracts + z3 VCs: entry framing posts, buffer/format/parse loop invariants over recursively defined positions and line lists', 'C16': 'contracts + z3 VCs: field loop invariant over an arbitrary symbolic field table', 'C17': 'contracts + z3 VCs: partition/order/slice posts over the six header finds; auto-detection post; cross-template lemma', 'C18': 'contracts + z3 VCs over imports/plugin_calls traces with parser modules havocked; plugins-disabled frames', 'C19': 'contracts + z3 VCs: cache invariants preserved by every operation (all histories by induction); frame obligations on shared mutable state', 'C20': 'contracts + z3 VCs: field-exact slicing posts (both assert modes), signature-list invariant, register dump by nested invariants over all data sizes'}
+TECH = {'C01': 'contracts + z3 VCs on the real source: section consumption posts, dispatch post, parsePEL loop invariant over recursively defined section list; buildOutput by two loop invariants over an array-modelled map + lemmas (z3 induction, cvc5 strings) and exhaustive enumeration', 'C02': 'contracts + z3 VCs: one postcondition per displayed field against byte-exact spec functions; sharded over flag words / target counts', 'C03': 'contracts + z3 VCs: sub-structure posts with read footprint, getCallouts by three loop invariants, SRC.toJSON posts with sample registries, Registry.getErrorMessage by a quantified first-match invariant over a registry of any size', 'C04': 'contracts + z3 VCs with the parser module havocked (returns/None/null/raises); hex-dump preservation via the C13 contract', 'C05': 'contracts + z3 VCs in both assert modes (assert statements removed for -O): bounds posts, exceptional postconditions, parsePEL-any-input invariant', 'C06': 'AST-extracted rewrite rule + regex->DFA product/emptiness (position lemma for lines of any length) + call-site check + mode loop invariants for the framing', 'C07': "contracts + z3 VCs: decision procedure equals the statement's selection formula over all severities, flags, switches and group sets", 'C08': 'contracts + z3 VCs: getFileList and the three modes by per-file loop invariants over one shared selection predicate (directories of any size)', 'C09': 'contracts + z3 VCs: stdout/stderr/fs ghost traces; per-file loop invariants: undecodable files contribute nothing (directories of any size)', 'C10': 'contracts + z3 VCs: id normalisation, PLID string lemma for all 2^32 ids (base-16 lemmas), look-up loops by (quantified) invariants', 'C11': 'contracts + z3 VCs: frame conditions on the ghost fs trace; deletion loops by invariants; main dispatch over all option combinations', 'C12': 'contracts + z3 VCs: every I/O primitive forks into success/OSError (all fault sequences); remove only after write_ok and close_ok', 'C13': 'contracts + z3 VCs: hexdump loop invariant, per-line parse lemmas on concrete-shape strings for 3 templates, syntactic independence lemma; layout enumeration', 'C14': 'contracts + z3 VCs: wildcard match on symbolic patterns, first-match search (quantified invariant), entry loop invariant, table-file reader by a loop invariant over the lines (regex matching abstracted as uninterpreted predicates)', 'C15': 'contracts + z3 VCs: entry framing posts, buffer/format/parse loop invariants over recursively defined positions and line lists, string-file reader by a loop invariant over the lines (regex matching abstracted)', 'C16': 'contracts + z3 VCs: field loop invariant over an arbitrary symbolic field table; field-table reader by a loop invariant over the lines of the header file (regex matching abstracted)', 'C17': 'contracts + z3 VCs: partition/order/slice posts over the six header finds (bytes.find with its quantified least-occurrence contract: earliest header stated on the bytes); auto-detection post; cross-template lemma', 'C18': 'contracts + z3 VCs over imports/plugin_calls traces with parser modules havocked; plugins-disabled frames', 'C19': 'contracts + z3 VCs: cache invariants preserved by every operation (all histories by induction); frame obligations on shared mutable state', 'C20': 'contracts + z3 VCs: field-exact slicing posts (both assert modes), signature-list invariant, register dump by nested invariants over all data sizes'}
 
 
 _DS = ("The value half of the DataStream contracts this property's decoders lean on (an in-range read returns exactly those bytes / "
